@@ -5,9 +5,12 @@ import (
 	"errors"
 	"fmt"
 	"io"
+	"regexp"
 
 	"github.com/goccy/go-json"
 )
+
+var jsonIntegerLiteral = regexp.MustCompile(`^-?(0|[1-9][0-9]*)$`)
 
 func (o *CandidateNode) setScalarFromJson(value interface{}) error {
 	o.Kind = ScalarNode
@@ -116,6 +119,19 @@ func (o *CandidateNode) UnmarshalJSON(data []byte) error {
 	}
 	log.Debug("UnmarshalJSON -  its a scalar!")
 	// otherwise, must be a scalar
+
+	// an integer literal is kept as written: going through float64 changes integers above 2^53
+	if literal := string(bytes.TrimSpace(data)); jsonIntegerLiteral.MatchString(literal) {
+		if _, _, err := parseInt64(literal); err == nil {
+			o.Kind = ScalarNode
+			o.Tag = "!!int"
+			o.Value = literal
+			if literal == "-0" {
+				o.Value = "0"
+			}
+			return nil
+		}
+	}
 	var scalar interface{}
 	err := json.Unmarshal(data, &scalar)
 
